@@ -240,6 +240,79 @@ def impl_cases(payload):
     return results
 
 
+BIG_SIZES = [1 << 16, 1 << 20, (1 << 22) - 8, 1 << 22, (1 << 22) + 8, 1 << 23, 3 << 21]
+
+
+def big_cases(ctx):
+    """Payload-size boundaries: per-file columns of exactly / just below / just above powers of two up to 8 MiB (pipe buffer,
+    page, compression-block and chunk sizes), two fields so that a wrong byte count of the first misframes the second."""
+    rng = ctx.rng
+    sizes = BIG_SIZES if not ctx.quick() else [1 << 16, 1 << 22, (1 << 22) + 8, 1 << 23]
+    cases = []
+    for nb in sizes:
+        for dt, w in (('<f8', 8), ('u1', 1)):
+            nfiles = rng.choice([1, 2])
+            cases.append({'nbytes': [nb] + ([rng.choice([nb, 1 << 20, 24])] if nfiles == 2 else []), 'dtype': dt, 'width': w,
+                          'seed': rng.randrange(1 << 30)})
+    return cases
+
+
+def impl_big(payload):
+    """Large payloads are generated, streamed and judged inside this process (only a digest travels back)."""
+    import os
+    import shutil
+    import tempfile
+    import threading
+
+    import asdf
+    import numpy as np
+    from vlib.implrun import classify
+    _register_extension()
+    from abacusnbody.data import pipe_asdf
+    out = []
+    for c in payload['cases']:
+        tmp = tempfile.mkdtemp(prefix='c20b_')
+        try:
+            rs = np.random.RandomState(c['seed'])
+            paths, firsts, seconds = [], [], []
+            for i, nb in enumerate(c['nbytes']):
+                a = np.frombuffer(rs.bytes(nb), dtype=c['dtype']).copy()
+                b = np.arange(5 + i, dtype='<i4')
+                firsts.append(a)
+                seconds.append(b)
+                path = os.path.join(tmp, f'b{i}.asdf')
+                asdf.AsdfFile({'data': {'big': a, 'tail': b}, 'header': {'index': i}}).write_to(path)
+                paths.append(path)
+            want = b''
+            for arrs, w in ((firsts, c['width']), (seconds, 4)):
+                want += struct.pack('<q', sum(x.size for x in arrs)) + struct.pack('<i', w) + b''.join(x.tobytes() for x in arrs)
+            r, wfd = os.pipe()
+            pipe = os.fdopen(wfd, 'wb')
+            got = []
+
+            def reader(r=r, got=got):
+                with os.fdopen(r, 'rb') as f:
+                    got.append(f.read())
+
+            t = threading.Thread(target=reader)
+            t.start()
+            cls, detail = 'ok', ''
+            try:
+                pipe_asdf.unpack_to_pipe(paths, ['big', 'tail'], pipe=pipe, verbose=False)
+            except Exception as e:  # noqa: BLE001
+                cls, detail = classify(e), repr(e)[:200]
+            if not pipe.closed:
+                pipe.close()
+            t.join()
+            data = got[0]
+            first_diff = next((k for k in range(min(len(data), len(want))) if data[k] != want[k]), None) if data != want else None
+            out.append({'class': cls, 'equal': data == want, 'written': len(data), 'expected': len(want), 'first_diff': first_diff,
+                        'detail': detail})
+        finally:
+            shutil.rmtree(tmp, ignore_errors=True)
+    return out
+
+
 # ------------------------------------------------------------------------------ oracle and encoding
 def _prod(shape):
     n = 1
@@ -357,6 +430,21 @@ def explore(ctx):
             keep.append(v)
     counterexamples = keep[:4]
 
+    # payload-size boundaries (oracle only: too large to hand to Coq)
+    bcases = big_cases(ctx)
+    try:
+        bres = ctx.run_impl('harness.c20', 'impl_big', {'cases': bcases})
+    except Exception as e:  # noqa: BLE001
+        bres = []
+        mismatches.append({'part': 'large-payloads', 'error': str(e)[:500]})
+    for c, r in zip(bcases, bres):
+        if (r['class'] != 'ok' or not r['equal']) and not any(v['key'].startswith('pipe:large') for v in counterexamples):
+            counterexamples.append({
+                'key': f"pipe:large:{c['dtype']}", 'what': f"pipe_asdf: a column of {c['nbytes']} bytes per file is not framed as count, width, "
+                f"raw bytes ({r['written']} bytes on the pipe, {r['expected']} expected, first difference at {r['first_diff']})",
+                'input': dict(c, big=True), 'impl_result': r, 'expected': {'class': 'ok', 'equal': True},
+                'predicate': 'bytes on the pipe == per requested field: int64 count, int32 width, concatenated raw bytes', 'size': 10 ** 9})
+    dist['large_payload_cases'] = len(bcases)
     validated = 0
     if ctx.model_available:
         bad, err = coq.eval_mismatches(ctx.scratch, 'c20', IMPORTS, 'run', terms, chunk=60)
@@ -369,7 +457,7 @@ def explore(ctx):
     else:
         ctx.notes.append('model not available (proofs broken): correspondence vs model skipped')
     return {
-        'evaluations': len(cases), 'distinct_nontrivial': len(nontrivial),
+        'evaluations': len(cases) + len(bcases), 'distinct_nontrivial': len(nontrivial),
         'rule': 'random file sets: 1..4 synthetic ASDF files (30% blsc-compressed via a write-side shim, read by the real decompress), '
                 'schemas of 1..6 columns with dtypes u1,i2,f4,f8,i8,>i4,u4,c16,>f8 and trailing dims (),(3,),(2,2),(1,),(0,), 0..7 '
                 'rows per file, 1..5 requested fields (random order, sometimes repeated); ~10% missing file, ~12% field missing in '
@@ -396,6 +484,9 @@ def search(ctx, broken):
 
 def replay(ctx, rec):
     case = rec['input']
+    if case.get('big'):
+        r = ctx.run_impl('harness.c20', 'impl_big', {'cases': [case]})[0]
+        return (r['class'] != 'ok' or not r['equal']), {'input': case, 'impl_result': r}
     got = ctx.run_impl('harness.c20', 'impl_cases', {'cases': [case]})[0]
     exp, why = judge(case, got)
     return bool(why), {'input': case, 'impl_result': got, 'expected': exp, 'why': why}
